@@ -90,7 +90,8 @@ def body_factory(tier, seed):
                     raise
             N.run_loopback("1.6", "Heartbeat", call.Heartbeat(), annotate, suppress=False)
         descrs = [None, "", "plain", "dëscr ✓", "x" * 300]
-        details = [None, {}, {"cause": "c"}, {"a": [1, 2.5, None, {"b": "ü"}], "n": None}, {"k": {"deep": {"er": []}}}]
+        details = [None, {}, {"cause": "c"}, {"a": [1, 2.5, None, {"b": "ü"}], "n": None}, {"k": {"deep": {"er": []}}},
+                   "text", "", [1, "a"], [], 0, 7.5, False]      # 'JSON details': any JSON value the application gives
         terms, meta = [], []
         req = call.Heartbeat()
         combos = [(c, d, x) for c in classes for d in descrs for x in details]
